@@ -1034,6 +1034,11 @@ func (t *Typechecker) findOverloadCast(expr *ast.CastExpr, operand operand) *ast
 		}
 		clear(genericTypes)
 
+		// an overload of the cast operator that was declared with the wrong number of parameters (already reported) is skipped
+		if len(overload.Parameters) != 1 {
+			continue
+		}
+
 		operator_overload := &ast.OperatorOverload{
 			Decl: overload,
 			Args: make(map[string]ast.Expression, 1),
